@@ -59,9 +59,27 @@ def _announced(c, fn, tuple3):
     canon = {"kernel": "K", "stride": "S", "padding": "P", "dilation": "D"}
     N = e1.Norm(c, env)
     out = {}
+    # the announced extents are the last two components of the returned shape (through any temporaries)
+    env_l = {}
     for s in stmts:
-        if s.get("k") == "let" and s["pat"].get("k") == "bind" and s["pat"]["name"] in ("height", "width"):
-            v = N.norm(s["init"])
+        if s.get("k") == "let" and s["pat"].get("k") == "bind" and s.get("init") is not None:
+            try:
+                env_l[s["pat"]["hid"]] = e1.Norm(c, env_l).norm(s["init"])
+            except ValueError:
+                pass
+    tail = strip(stmts[-1]) if stmts else None
+    comps = []
+    if tail is not None and tail.get("k") == "call" and tail["callee"].startswith("tensor::Shape::") and len(tail["args"]) >= 2:
+        comps = list(zip(("height", "width"), tail["args"][-2:]))
+    elif tail is not None and tail.get("k") == "tup" and len(tail["xs"]) >= 2:
+        comps = list(zip(("height", "width"), tail["xs"][-2:]))
+    for nm_, node_ in comps:
+        if True:
+            try:
+                v = e1.Norm(c, env_l).norm(node_)
+            except ValueError:
+                continue
+            s = {"pat": {"name": nm_}}
             table = {}
             for a in e1._all_atoms(v):
                 base, _, comp = a.rpartition(".")
@@ -358,11 +376,27 @@ SIZE_FNS = ["convolution::Convolution::calculate_output_size", "deconvolution::D
 _old_run = run
 
 
+def r6_helpers(ctx):
+    """flat <-> CxHxW transitions lose nothing: the reshaping helpers are row-major with the announced extents (C14's R14.2 re-run)"""
+    from . import c14
+    sub = type(ctx)(ctx.prop, ctx.facts)
+    sub.guard("R14.2", "flatten", c14.r2_flatten, sub)
+    bad = [o for o in sub.obligations if o["status"] != "ok"]
+    for o in bad:
+        ctx.bad("R08.6", "helper:" + o["instance"], o["key"].split("/", 3)[-1], o["where"], o["detail"])
+    ctx.check("R08.6", "reshaping-helpers", not bad and len(sub.obligations) >= 4, "reshaping-helper-broken", "src/tensor.rs",
+              "flatten / get_flat / get_triple are row-major (%d facts)" % len(sub.obligations))
+
+
+RULES["R08.6"] = "flat <-> CxHxW transitions: Tensor::flatten / get_flat / get_triple are row-major over (channels, rows, columns) (R14.2 re-run under this property)"
+
+
 def run(ctx):
+    ctx.guard("R08.6", "reshaping-helpers", r6_helpers, ctx)
     _old_run(ctx)
     ctx.guard("R08.1", "announced-vs-produced", r1, ctx)
     ctx.guard("R08.2", "gradient-shapes", r2, ctx)
     ctx.guard("R08.3", "builder-chaining", r3, ctx)
-    ctx.guard("R08.5", "axis-typing", spatial.axis_typing, ctx, "R08.5", SIZE_FNS, 120)
+    ctx.guard("R08.5", "axis-typing", spatial.axis_typing, ctx, "R08.5", SIZE_FNS, 88)  # measured 177
     ctx.floor("R08.1", 24, "sizes, channels, substitution facts")
     ctx.floor("R08.2", 12, "")
